@@ -272,7 +272,7 @@ fn catalogue() -> Vec<(Case, bool)> {
             let decl_col = 7 + width + 2 + 2 + 1;
             for (redecl, col2) in [("count := 2\n", 1u32), ("  fn count() {\n    return 0\n}\n", 6), ("[a, count] := [1, 2]\n", 5)] {
                 let s = format!("{src}{redecl}");
-                let preds = vec![DiagPred::Pos{line: decl_line as u32 + 1, col: col2}, DiagPred::MsgContains(vec!["count".into(), format!("{decl_line}:{decl_col}")])];
+                let preds = vec![DiagPred::Pos{line: decl_line as u32 + 1, col: col2}, DiagPred::MsgContains(vec![format!("{decl_line}:{decl_col}")])];
                 errs.push((s, "", preds));
             }
         }
@@ -288,7 +288,7 @@ fn catalogue() -> Vec<(Case, bool)> {
 }
 
 pub fn run(ctx: &Ctx) {
-    ctx.set_rule("all event sequences of length <= 4 (quick: length 4 sampled 1:4; thorough: length 5 complete) over 20 events on the names x, y, _: declare, assign, op-assign, read, list / object destructure as declaration and assignment, fn declaration, block / if / for-target / parameter scopes opened and closed (nested), _ as declaration / twice in a pattern / read / object collect; 20 expression kinds (13 non-bindable, 7 bindable) x 10 binding positions; a catalogue for _ and for cited positions; oracle: reference interpreter on stdout and outcome, Undefined reported at the name, a redeclaration citing the earlier declaration's line:col. Non-trivial = the sequence has a scope event, an underscore, ends in an undefined-name / redeclaration error, or distinguishes {assignment declares, declaration assigns outer, no block scope}; distinct = distinct source texts");
+    ctx.set_rule("all event sequences of length <= 4 (quick: length 4 sampled 1:2; thorough: length 5 complete) over 20 events on the names x, y, _: declare, assign, op-assign, read, list / object destructure as declaration and assignment, fn declaration, block / if / for-target / parameter scopes opened and closed (nested), _ as declaration / twice in a pattern / read / object collect; 20 expression kinds (13 non-bindable, 7 bindable) x 10 binding positions; a catalogue for _ and for cited positions; oracle: reference interpreter on stdout and outcome, Undefined reported at the name, a redeclaration citing the earlier declaration's line:col; the earlier declaration at lines up to 5000 and columns up to 4100 (cited position must be exact). Non-trivial = the sequence has a scope event, an underscore, ends in an undefined-name / redeclaration error, or distinguishes {assignment declares, declaration assigns outer, no block scope}; distinct = distinct source texts");
     ctx.replay_corpus(None);
     ctx.judge_all(catalogue(), Via::Cli, None);
     ctx.judge_all(non_bindable(ctx), Via::Cli, None);
@@ -297,7 +297,7 @@ pub fn run(ctx: &Ctx) {
     }
     ctx.mark_exhaustive("event sequences of length <= 3; expression kind x binding position matrix");
     if ctx.tier == Tier::Quick {
-        enumerate(ctx, 4, 4);
+        enumerate(ctx, 4, 2);
     } else {
         enumerate(ctx, 4, 1);
         enumerate(ctx, 5, 1);
